@@ -54,6 +54,7 @@ type Opts struct {
 	Addenda                bool     // optional Addenda05 where the SEC allows (PPD/CCD/WEB/CIE/ACK 0..1, CTX/ATX/TRX 0..4, ENR 1..3), IAT Addenda17/18
 	Offset                 bool     // may configure batch.WithOffset (checking/savings) on PPD/CCD/WEB/CTX
 	OffsetReturns          bool     // with Offset: return batches may be balanced with an offset too (moov-io/ach issue 1010)
+	ADVReturns             bool     // ADV batches may consist of returned advices (every entry with an Addenda99)
 	ForwardOnly            bool     // overrides Returns and NOC; COR only if asked for by name
 	OFAC                   bool     // may set the two IAT OFAC screening indicators (ach.Reader blanks them on parse, so such files are not write/read/write stable)
 }
